@@ -1064,6 +1064,18 @@ pub fn run(ctx: &mut Ctx) {
         .map(|s| TextCase { text: s.to_string(), seed_hex: hex_lower(&p.bytes(32)), origin: "fixed".into(), model: None, how: "hand-written".into() })
         .collect();
     ctx.run_cases("fixed", &fixed, judge_text_case);
+    // every ASCII character 0x01..=0x7f in the places of a path text: after, before and inside a number, in place
+    // of the root letter and of the separator (the scanner decides what each text is: only digits, one trailing
+    // apostrophe and '/' have a meaning)
+    let mut sweep = vec![];
+    for b in 1u8..=0x7f {
+        let c = b as char;
+        for text in [format!("m/4{c}"), format!("m/{c}4"), format!("m/4{c}4"), format!("m/44'/6{c}0'/0'/0/0"), format!("{c}/0"), format!("m{c}0"), format!("m/0{c}/1"), format!("m/0'{c}")] {
+            sweep.push(TextCase { text, seed_hex: hex_lower(&p.bytes(32)), origin: "fixed".into(), model: None, how: format!("ASCII sweep: {c:?}") });
+        }
+    }
+    ctx.run_cases("fixed", &sweep, judge_text_case);
+    ctx.exhaustive_parts.push("every ASCII character 0x01..0x7f at eight places of a short path text".into());
     ctx.exhaustive_parts.push(format!("{} hand-written malformed strings", FIXED.len()));
     floor_abs(ctx, "fixed:rejected", FIXED.len() as u64 - 1);
 
